@@ -377,17 +377,21 @@ where
             let run_futs = policy
                 .other_parties()
                 .map(async |p| client.run(p, run_request.clone()).await);
-            if let Err(err) = future::try_join_all(run_futs).await
-                && let Some(url) = policy.output
-            {
-                let _ = client
-                    .output(
-                        url.clone(),
-                        Err(OutputError::RequestRunError {
-                            source: Box::new(err),
-                        }),
-                    )
-                    .await;
+            if let Err(err) = future::try_join_all(run_futs).await {
+                if let Some(url) = policy.output {
+                    let _ = client
+                        .output(
+                            url.clone(),
+                            Err(OutputError::RequestRunError {
+                                source: Box::new(err),
+                            }),
+                        )
+                        .await;
+                } else {
+                    error!(%err, "error when requesting run from followers");
+                }
+                // stop the state machine (and thereby release the permit) whether or not
+                // there is an output destination to notify
                 return ControlFlow::Break(());
             }
             debug!("followers are running");
